@@ -164,6 +164,8 @@ class Executor(Base, ContMixin, ExprMixin, CallMixin, LibMixin, StmtMixin, CompM
         whole = set()
         per_obj = {}
         conts = []
+        if '*' in [x.strip() for x in c.modifies]:
+            return
         for m in c.modifies:
             m = m.strip()
             if m.endswith('[*]'):
